@@ -10,9 +10,10 @@
   the standard normal CDF `Φ`) exactly where a theorem says so.
 -/
 import Proofs.C08Lex
+import Proofs.FittableTable
 
 namespace Taurex.C08
-open Taurex.Priors
+open Taurex.Priors Taurex.FittableTable
 
 /-! ### uniform priors -/
 
@@ -207,6 +208,51 @@ theorem default_from_bounds (b0 b1 : ℝ) :
   · intro h
     exact (log_lin_equiv b0 b1).2 h
 
+/-! ### default priors of DECLARED parameters (decorator / `add_fittable_param`, then `modify_bounds`) -/
+
+/-- declaration → tuple: keywords given are stored as given (whatever the route: `@fitparam(...)`, `fitparam(f, ...)`,
+    `add_fittable_param`); keywords left out of the decorator take the signature defaults `'linear'`, `False`, `[0, 1]` -/
+theorem declaration_tuple (name : String) (m : FitMode) (f : Bool) (b0 b1 : ℝ) :
+    (Decl.entry ⟨name, some m, some f, some (b0, b1)⟩ = ⟨name, m, f, b0, b1⟩) ∧
+    (Decl.entry (α := ℝ) ⟨name, none, none, none⟩ = ⟨name, .linear, false, 0, 1⟩) := ⟨rfl, rfl⟩
+
+/-- **Defaults derive from the declared mode and the current bounds.**  For an object whose declarations and
+    `modify_bounds` calls all succeed, the default prior `compile_params` builds for a declared parameter is
+    `defaultPrior` of the mode it was DECLARED with and of the bounds of the LAST `modify_bounds` naming it (its declared
+    bounds when there is none): no boundary change touches the mode, and no other parameter's change touches it. -/
+theorem default_from_declaration (decls : List (Decl ℝ)) (hist : List (String × ℝ × ℝ)) (t : List (Entry ℝ))
+    (h : declaredTable decls hist = some t) (d : Decl ℝ) (hd : d ∈ decls) :
+    defaultOf t d.name = some (defaultPrior (d.mode.getD .linear)
+      (lastBounds d.name hist (d.entry.b0, d.entry.b1)).1 (lastBounds d.name hist (d.entry.b0, d.entry.b1)).2) := by
+  unfold defaultOf
+  rw [(declaredTable_spec decls hist t h).2 d hd]
+  rfl
+
+/-- in particular a parameter declared `'log'` whose current bounds are positive gets the log-uniform prior between
+    the log10 of the current bounds, one declared `'linear'` (or without a mode) the uniform prior between them -/
+theorem default_from_declaration_classes (decls : List (Decl ℝ)) (hist : List (String × ℝ × ℝ)) (t : List (Entry ℝ))
+    (h : declaredTable decls hist = some t) (d : Decl ℝ) (hd : d ∈ decls) (b0 b1 : ℝ)
+    (hb : lastBounds d.name hist (d.entry.b0, d.entry.b1) = (b0, b1)) :
+    (d.mode = some .log → 0 < b0 → 0 < b1 →
+      defaultOf t d.name = some (some (.logUniform (min (log10 b0) (log10 b1)) (max (log10 b0) (log10 b1))))) ∧
+    (d.mode ≠ some .log → defaultOf t d.name = some (some (.uniform (min b0 b1) (max b0 b1)))) := by
+  have hm := default_from_declaration decls hist t h d hd
+  rw [hb] at hm
+  constructor
+  · intro hlog h0 h1
+    rw [hm, hlog]
+    simp only [Option.getD_some]
+    rw [(default_from_bounds b0 b1).2.1 h0 h1]
+  · intro hlin
+    rw [hm]
+    have : d.mode.getD .linear = .linear := by
+      cases hmo : d.mode with
+      | none => rfl
+      | some m => cases m with
+        | linear => rfl
+        | log => exact absurd hmo hlin
+    rw [this, (default_from_bounds b0 b1).1]
+
 /-! ### prior text -/
 
 /-- print/parse round trip at token level: for every call (any name, any keyword list, numbers carried as literal
@@ -253,6 +299,15 @@ example : (Prior.logUniform (0 : ℝ) 1).back (log10 100) = 100 :=
 
 example : defaultPrior FitMode.log (1 : ℝ) 100 ≠ none := by
   rw [(default_from_bounds 1 100).2.1 (by norm_num) (by norm_num)]; simp
+
+/-- `default_from_declaration` is not vacuous: a log parameter declared through the decorator with bounds [1e-6, 1e6],
+    narrowed by `modify_bounds` to [2000, 20] (the order the caller gave), next to a linear one left alone -/
+example : declaredTable (α := ℝ) [⟨"scale", some .log, none, some (1e-6, 1e6)⟩, ⟨"offset", none, none, none⟩]
+    [("scale", 2000, 20)] = some [⟨"scale", .log, false, 2000, 20⟩, ⟨"offset", .linear, false, 0, 1⟩] := by
+  simp [declaredTable, declareAll, addParam, runHist, modifyBounds, Decl.entry]
+
+example : lastBounds (α := ℝ) "scale" [("scale", 2000, 20), ("offset", 3, 4)] (1e-6, 1e6) = (2000, 20) := by
+  simp [lastBounds]
 
 /-- the documented example `LogUniform(lin_bounds=(1e-12, 1e-2))` round-trips through the token printer -/
 example : parseToks (printToks ⟨"LogUniform", [("lin_bounds", .tuple ["1e-12", "1e-2"])]⟩) =
